@@ -189,3 +189,40 @@ def fn_suffix(inner):
     if inner == "Vec<T>":
         return "gvec"
     return "vec"
+
+
+NOSTD_HEAD = r'''
+#![allow(dead_code, unused_imports, unused_variables, unused_mut, clippy::all)]
+use alloc::vec::Vec;
+
+#[derive(Debug, Clone, PartialEq, Eq)]
+pub struct CErr(pub i64);
+impl core::fmt::Display for CErr {
+    fn fmt(&self, f: &mut core::fmt::Formatter<'_>) -> core::fmt::Result { write!(f, "cerr {}", self.0) }
+}
+impl core::error::Error for CErr {}
+pub fn s0_vec(mut v: Vec<i32>) -> Vec<i32> { v.reverse(); v }
+pub fn s1_vec(mut v: Vec<i32>) -> Vec<i32> { v.truncate(3); v }
+pub fn s2_vec(mut v: Vec<i32>) -> Vec<i32> { v.push(0); v }
+pub fn p0_vec(v: &Vec<i32>) -> bool { !v.is_empty() }
+pub fn p1_vec(v: &Vec<i32>) -> bool { v.iter().all(|x| *x >= 0) }
+pub fn c0_vec(v: &Vec<i32>) -> Result<(), CErr> {
+    if v.len() > 3 { Err(CErr(v.len() as i64)) } else { Ok(()) }
+}
+pub fn s0_gvec<T>(mut v: Vec<T>) -> Vec<T> { v.reverse(); v }
+pub fn s1_gvec<T>(mut v: Vec<T>) -> Vec<T> { v.truncate(3); v }
+pub fn p0_gvec<T>(v: &Vec<T>) -> bool { !v.is_empty() }
+'''
+
+
+def rt_nostd_source():
+    out = [NOSTD_HEAD]
+    for t, (signed, bits) in INT_TYPES.items():
+        src = INT.replace("{t}", t)
+        if not signed:
+            src = src.replace("pub const fn s0_%s(v: %s) -> %s { if v < 0 { 0 } else if v > 100 { 100 } else { v } }" % (t, t, t),
+                              UINT_S0.replace("{t}", t))
+        out.append(src)
+    for t in ("f32", "f64"):
+        out.append(FLOAT.replace("{t}", t).replace("v.abs()", "if v < 0.0 { -v } else { v }"))
+    return "\n".join(out)
